@@ -61,6 +61,17 @@ struct HashLog {
 };
 extern thread_local HashLog hashlog;
 
+// ---------------------------------------------------------------- MAC / cipher oracle log
+struct MacLogEntry { std::string input, tag; int verify; };        // verify: -1 = read (tag produced), 0 = verified ok, 1 = verify failed
+struct CipherLogEntry { bool encrypt; std::string in, out; };
+struct CryptoLog {
+	bool log = false;
+	std::vector<MacLogEntry> macs;
+	std::vector<CipherLogEntry> ciphers;
+	void clear() { macs.clear(); ciphers.clear(); }
+};
+extern thread_local CryptoLog cryptolog;
+
 // ---------------------------------------------------------------- text helpers
 static inline std::string zs(mpz_srcptr z) {
 	char *c = mpz_get_str(NULL, 10, z); std::string s(c); free(c); return s;
